@@ -13,7 +13,7 @@ def escape_quotes_and_backslashes(s):
     return s.replace(u'\\', u'\\\\').replace(u"'", u"\\'")
 
 
-_PLAIN_PATH_STEP = re.compile(r"^[a-zA-Z_][a-zA-Z0-9_]*$")
+_PLAIN_PATH_STEP = re.compile(r"^[a-zA-Z_][a-zA-Z0-9_]*\Z")
 _PATTERN_KEYWORDS = frozenset([
     "AND", "OR", "NOT", "FOLLOWEDBY", "LIKE", "MATCHES", "ISSUPERSET",
     "ISSUBSET", "EXISTS", "LAST", "IN", "START", "STOP", "SECONDS", "true",
